@@ -278,6 +278,8 @@ type c21Op struct {
 	ifmatch string // "N", "*", or cid
 	vid     *string
 	vers    string
+	conds   []string // delsc: per-entry If-Match (N, *, cid), parallel to keys
+	sub     string   // bad: put | app | up
 	label   int    // multipart upload label
 	pn      int    // part number
 	db, dk  string // copy destination
@@ -325,6 +327,18 @@ func c21ParseOp(t string) c21Op {
 		op.b = untokBytes(f[1])
 	case "get", "gtag", "dtag":
 		op.b, op.k = untokBytes(f[1]), untokBytes(f[2])
+	case "delsc":
+		op.b = untokBytes(f[1])
+		for _, e := range strings.Split(f[2], ",") {
+			kc := strings.SplitN(e, ":", 2)
+			op.keys = append(op.keys, untokBytes(kc[0]))
+			op.conds = append(op.conds, kc[1])
+		}
+	case "bad":
+		op.sub, op.b, op.k = f[1], untokBytes(f[2]), untokBytes(f[3])
+		if op.sub == "up" {
+			op.label, _ = strconv.Atoi(f[4])
+		}
 	case "abt":
 		op.b, op.k = untokBytes(f[1]), untokBytes(f[2])
 		op.label, _ = strconv.Atoi(f[3])
@@ -428,6 +442,8 @@ func c21Err(err error) string {
 		return "E:PreconditionFailed"
 	case errors.As(err, &dm):
 		return "E:DeleteMarker"
+	case errors.Is(err, storage.ErrBadDigest):
+		return "E:BadDigest"
 	case errors.Is(err, metadatastore.ErrUploadWithInvalidSequenceNumber), errors.Is(err, storage.ErrInvalidPart):
 		return "E:InvalidPart"
 	case errors.Is(err, context.Canceled):
@@ -516,6 +532,29 @@ func c21Exec(ctx context.Context, st storage.Storage, op c21Op, ups map[int]stor
 		return metadatastore.NewRandomUploadId() // never created here: an id the storage does not know
 	}
 	switch op.kind {
+	case "delsc":
+		es := make([]storage.DeleteObjectsInputEntry, len(op.keys))
+		for i, k := range op.keys {
+			es[i] = storage.DeleteObjectsInputEntry{Key: storage.MustNewObjectKey(k), IfMatchETag: c21IfMatch(op.conds[i])}
+		}
+		_, err := st.DeleteObjects(ctx, storage.MustNewBucketName(op.b), es)
+		return c21Err(err)
+	case "bad":
+		// the body is content 7777, the declared digest is that of content 7778
+		wrong := c21ETag(7778)
+		ci := &storage.ChecksumInput{ETag: &wrong}
+		body := bytes.NewReader(c21Content(7777))
+		switch op.sub {
+		case "put":
+			_, err := st.PutObject(ctx, storage.MustNewBucketName(op.b), storage.MustNewObjectKey(op.k), nil, body, ci, nil)
+			return c21Err(err)
+		case "app":
+			_, err := st.AppendObject(ctx, storage.MustNewBucketName(op.b), storage.MustNewObjectKey(op.k), body, ci, nil)
+			return c21Err(err)
+		default:
+			_, err := st.UploadPart(ctx, storage.MustNewBucketName(op.b), storage.MustNewObjectKey(op.k), upload(), 1, body, ci)
+			return c21Err(err)
+		}
 	case "cmu":
 		o := &storage.CreateMultipartUploadOptions{StorageClass: op.class, Metadata: c21MetaOpts(op)}
 		if len(op.tags) > 0 {
@@ -800,6 +839,25 @@ func (s c21ShState) apply(op c21Op) bool {
 		}
 		b.vers = op.vers[0]
 		return true
+	case "delsc":
+		if !b.exists {
+			return false
+		}
+		for i, kk := range op.keys {
+			k := b.key(kk)
+			switch c := op.conds[i]; c {
+			case "N":
+				del(k)
+			case "*":
+			default:
+				if n, _ := strconv.Atoi(c); k.cur && k.cid == n {
+					del(k)
+				}
+			}
+		}
+		return true
+	case "bad":
+		return false
 	case "cmu":
 		if !b.exists {
 			return false
@@ -891,6 +949,8 @@ type c21Shadow struct {
 	syncW      int
 	queuedN    int
 	mp, other  bool
+	refused    int  // writes refused on the queued path
+	batchC     bool // DeleteObjects with per-entry conditions
 	wtBlocked  int // write-through operations that had to wait
 }
 type c21ShFlight struct {
@@ -939,6 +999,22 @@ func (s *c21Shadow) route(op c21Op) *[3]string {
 			return &[3]string{"bucket", op.b, ""}
 		}
 		return nil
+	case "delsc":
+		cond := false
+		for _, c := range op.conds {
+			if c != "N" {
+				cond = true
+			}
+		}
+		if cond || v != 'U' {
+			return &[3]string{"bucket", op.b, ""}
+		}
+		return nil
+	case "bad":
+		if op.sub == "put" && v != 'E' {
+			return nil // queued path: refused, nothing enqueued
+		}
+		return &[3]string{"key", op.b, op.k}
 	case "ver", "ls":
 		return &[3]string{"bucket", op.b, ""}
 	case "get", "gtag", "ptag", "dtag", "cmu", "up", "cpl", "abt", "app":
@@ -973,10 +1049,13 @@ func (s *c21Shadow) joinable() bool {
 }
 func (s *c21Shadow) perform(op c21Op) {
 	switch op.kind {
-	case "put", "del", "dels", "ver", "cmu", "up", "cpl", "abt", "app", "cp", "ptag", "dtag":
+	case "put", "del", "dels", "delsc", "bad", "ver", "cmu", "up", "cpl", "abt", "app", "cp", "ptag", "dtag":
 		s.inner.apply(op)
 		s.seq.apply(op)
 		s.syncW++
+		if op.kind == "delsc" {
+			s.batchC = true
+		}
 		switch op.kind {
 		case "cmu", "up", "cpl", "abt":
 			s.mp = true
@@ -1011,8 +1090,16 @@ func (s *c21Shadow) step(op c21Op) bool {
 		if s.fl != nil {
 			s.conc = true
 		}
+		if op.kind == "bad" {
+			s.refused++
+			return true
+		}
 		var es []c21Op
-		if op.kind == "dels" {
+		if op.kind == "delsc" {
+			for _, k := range op.keys {
+				es = append(es, c21Op{kind: "del", b: op.b, k: k, ifmatch: "N"})
+			}
+		} else if op.kind == "dels" {
 			for _, k := range op.keys {
 				es = append(es, c21Op{kind: "del", b: op.b, k: k, ifmatch: "N"})
 			}
@@ -1065,6 +1152,18 @@ func c21ShowOp(op c21Op) string {
 		return op.kind + "/" + tokBytes(op.b)
 	case "get", "gtag", "dtag":
 		return op.kind + "/" + tokBytes(op.b) + "/" + tokBytes(op.k)
+	case "delsc":
+		es := make([]string, len(op.keys))
+		for i, k := range op.keys {
+			es[i] = tokBytes(k) + ":" + op.conds[i]
+		}
+		return "delsc/" + tokBytes(op.b) + "/" + strings.Join(es, ",")
+	case "bad":
+		t := "bad/" + op.sub + "/" + tokBytes(op.b) + "/" + tokBytes(op.k)
+		if op.sub == "up" {
+			t += "/" + strconv.Itoa(op.label)
+		}
+		return t
 	case "abt":
 		return "abt/" + tokBytes(op.b) + "/" + tokBytes(op.k) + "/" + strconv.Itoa(op.label)
 	case "app":
@@ -1246,6 +1345,33 @@ func c21GenDirected(r *Rng) string {
 			o.ifmatch = "*"
 		default:
 			o.ifmatch = strconv.Itoa(1 + r.Intn(cid))
+		}
+	}
+	if wtBucket == b && r.Chance(30) {
+		// DeleteObjects: an If-Match entry (matching / stale / wildcard) on the settled key k2 and a plain
+		// entry for the key whose write is still queued (sometimes plain only: then it is queued itself)
+		op = c21Op{kind: "delsc", b: b}
+		if r.Chance(80) {
+			c := "*"
+			if k2s := sh.seq.bucket(b).key(k2); k2s.cur && k2s.cid > 0 && r.Chance(70) {
+				c = strconv.Itoa(k2s.cid)
+			} else if r.Bool() {
+				c = strconv.Itoa(1 + r.Intn(cid))
+			}
+			op.keys, op.conds = append(op.keys, k2), append(op.conds, c)
+		}
+		op.keys, op.conds = append(op.keys, k), append(op.conds, "N")
+		if r.Chance(30) {
+			op.keys[0], op.keys[len(op.keys)-1] = op.keys[len(op.keys)-1], op.keys[0]
+			op.conds[0], op.conds[len(op.conds)-1] = op.conds[len(op.conds)-1], op.conds[0]
+		}
+	} else if r.Chance(25) {
+		// a write with a wrong digest: refused (queued path: no entry; write-through: by the inner storage)
+		op = c21Op{kind: "bad", sub: "put", b: wtBucket, k: wtKey}
+		if r.Chance(30) {
+			op.sub = "app"
+		} else if upLabel != 0 && wtBucket == b && r.Chance(25) {
+			op.sub, op.label = "up", upLabel
 		}
 	}
 	for tries := 0; tries < 20 && op.kind == ""; tries++ {
@@ -1475,11 +1601,29 @@ func c21GenCase(r *Rng) string {
 				op = c21Op{kind: "ptag", b: b, k: k, tags: map[string]string{r.Pick([]string{"t1", "t2"}): r.Pick([]string{"a", "b"})}}
 			case y < 96:
 				op = c21Op{kind: "dtag", b: b, k: k}
-			default:
+			case y < 98:
 				op = c21Op{kind: "gtag", b: b, k: k}
+			case y < 99:
+				op = c21Op{kind: "bad", sub: r.Pick([]string{"put", "put", "app"}), b: b, k: k}
+			default:
+				op = c21Op{kind: "delsc", b: b}
+				for _, kk := range uk {
+					if r.Chance(60) {
+						c := "N"
+						if sb.vers != 'S' && r.Chance(40) {
+							c = r.Pick([]string{"*", strconv.Itoa(1 + r.Intn(cid))})
+						}
+						op.keys, op.conds = append(op.keys, kk), append(op.conds, c)
+					}
+				}
+				if len(op.keys) == 0 {
+					continue
+				}
 			}
-			if _, last := sh.pendingConf(*sh.route(op)); last >= 0 && blockedBudget <= 0 {
-				continue
+			if cl := sh.route(op); cl != nil {
+				if _, last := sh.pendingConf(*cl); last >= 0 && blockedBudget <= 0 {
+					continue
+				}
 			}
 			emit(op)
 			if sh.fl != nil {
@@ -1653,6 +1797,12 @@ func (c21) Run(in string, scratch string) Result {
 	if sh.mp {
 		tags = append(tags, "multipart")
 	}
+	if sh.batchC {
+		tags = append(tags, "batch-delete-conditional")
+	}
+	if sh.refused > 0 {
+		tags = append(tags, "refused-on-queued-path")
+	}
 	if sh.other {
 		tags = append(tags, "copy-append-tagging")
 	}
@@ -1766,7 +1916,7 @@ func (c21) Run(in string, scratch string) Result {
 					switch op.kind {
 					case "cb", "db":
 						return false
-					case "put", "del", "dels":
+					case "put", "del", "dels", "delsc", "bad":
 						cctx := context.WithValue(bg, c21CtxKey{}, &c21Trace{blocked: make(chan struct{})})
 						v := "U"
 						if c, err := inner.GetBucketVersioningConfiguration(cctx, storage.MustNewBucketName(op.b)); err == nil {
@@ -1777,6 +1927,15 @@ func (c21) Run(in string, scratch string) Result {
 							return op.ifnone || op.ifmatch != "N" || v == "E"
 						case "del":
 							return op.ifmatch != "N" || v != "U"
+						case "delsc":
+							for _, c := range op.conds {
+								if c != "N" {
+									return true
+								}
+							}
+							return v != "U"
+						case "bad":
+							return op.sub != "put" || v == "E"
 						}
 						return v != "U"
 					}
@@ -1873,7 +2032,7 @@ func c21Oracle(scratch, dir string, ops []c21Op, outs []string, sweep []string, 
 				continue
 			}
 			want := c21Exec(ctx, st, op, ups, ub)
-			queuedKind := op.kind == "cb" || op.kind == "db" || op.kind == "put" || op.kind == "del" || op.kind == "dels"
+			queuedKind := op.kind == "cb" || op.kind == "db" || op.kind == "put" || op.kind == "del" || op.kind == "dels" || op.kind == "delsc"
 			if queuedKind && outs[i] == "OK" {
 				// accepted into the outbox (or written through successfully): nothing to compare yet
 				continue
